@@ -171,6 +171,12 @@ def round_trip(ctx, label, build, fmt='EST'):
             'printing of an entity type / function name (opaque text; printing and parsing names is C05)')
     ex.stub(r'::Data as Default>::default$', lambda ex_, st, c, A: UNIT, 'ExprBuilder::Data = () for the EST builder')
     ex.stub(r'<(smol_str::)?SmolStr as ToString>::to_string$', lambda ex_, st, c, A: strip(ex_, st, A[0]), 'SmolStr::to_string (the same text)')
+    pst_ty = Opaque('pst::expr::EntityType', 'entity type (PST)')
+    tok[pst_ty.id] = 'entity_type'
+    if fmt == 'PST':
+        # the PST has its own EntityType; its conversion pair is a leaf here (token that converts back to the same type)
+        ex.stub(r'entity::EntityType as Into<pst::(expr::)?EntityType>>::into$|pst::(expr::)?EntityType as From<.*entity::EntityType>>::from$',
+                lambda ex_, st, c, A: pst_ty if getattr(strip(ex_, st, A[0]), 'id', None) == payload['entity_type'].id else None, 'entity type -> PST entity type (token)')
     heap = {'N': ast_expr(node)}
     outs = ex.run(f_ast, [ast_expr(node)], heap=heap, subst={'T': '()', 'B': builder})
     ctx.absorb(ex)
@@ -201,6 +207,8 @@ def round_trip(ctx, label, build, fmt='EST'):
         return ok(back[i])
     ex2.stub(r'est::expr::<impl at [^>]*>::try_into_ast$|est::expr::Expr::try_into_ast$', (lambda ex_, st, c, A: rec_est(ex_, st, c, A)) if fmt == 'EST' else (lambda ex_, st, c, A: None), 'recursive EST -> AST conversion of the EST of child i: the child again (induction hypothesis), logged')
     if fmt == 'PST':
+        ex2.stub(r'pst::(expr::)?EntityType as Into<.*entity::EntityType>>::into$|entity::EntityType as From<pst::(expr::)?EntityType>>::from$',
+                 lambda ex_, st, c, A: payload['entity_type'] if getattr(strip(ex_, st, A[0]), 'id', None) == pst_ty.id else None, 'PST entity type -> the entity type it came from (token)')
         ex2.stub(r'<impl pst::expr::Expr>::into_expr|pst::ast_conversions::<impl at [^>]*>::into_expr$|pst::expr::Expr::into_expr::<', lambda ex_, st, c, A: (lambda r: None if r is None else r.fields[0])(rec_est(ex_, st, c, A)), 'recursive PST -> AST conversion of the PST of child i: the child again (induction hypothesis), logged')
 
     ex2.stub(r'Pattern as From<&\[.*PatternElem\]>>::from$', lambda ex_, st, c, A: payload['pattern'], 'EST pattern elements -> ast::Pattern (opaque)')
@@ -258,7 +266,9 @@ CONDS = ['principal == resource', '1 < 2', '1 <= 2', '2 > 1', '2 >= 1', '1 != 2'
 POLICIES = ['@a("x") @b("") @c permit(principal, action, resource);', 'forbid(principal == User::"a", action == Action::"x", resource == Photo::"p") unless { 1 < 2 };',
             'permit(principal in Group::"g", action in [Action::"x", Action::"y"], resource in Album::"z");', 'permit(principal is User, action in [], resource is Photo);',
             'forbid(principal is User in Group::"g", action in Action::"all", resource is Photo in Album::"z") when { true } unless { false };',
-            '@id("p") permit(principal, action, resource) when { principal.a } when { resource.b } unless { context.c };']
+            '@id("p") permit(principal, action, resource) when { principal.a } when { resource.b } unless { context.c };',
+            'permit(principal == User::"O\\"Brien\\\\", action, resource in Album::"a\\nb") when { resource == Photo::"\\"" };',
+            'permit(principal, action, resource) when { resource.name like "a**b\\*c*" && resource.name like "**" };']
 
 
 def battery_replay(ctx, name, role, why, fmt='EST'):
@@ -604,7 +614,12 @@ def link_battery(ctx, name, role, why):
 
 def families(ctx):
     fam = [(f'round trip of a {label} node', (lambda label=label, b=b: round_trip(ctx, label, b))) for label, b in nodes()]
-    fam += [(f'PST round trip of a {label} node', (lambda label=label, b=b: round_trip(ctx, label, b, 'PST'))) for label, b in nodes() if not label.startswith('extension call')]
+    fam += [(f'PST round trip of a {label} node', (lambda label=label, b=b: round_trip(ctx, label, b, 'PST'))) for label, b in nodes() if not label.startswith('extension call') and label not in ('variable', 'slot')]
+    # the PST has its own Var / SlotId types: one node per concrete variable and slot, so that the real conversions between them run
+    for v in ('Principal', 'Action', 'Resource', 'Context'):
+        fam.append((f'PST round trip of a variable {v} node', (lambda v=v: round_trip(ctx, f'variable {v}', (lambda k, p, v=v: Agg('variant', EK, 'Var', [Agg('variant', 'ast::expr::Var', v, [])])), 'PST'))))
+    for sl in ('Principal', 'Resource'):
+        fam.append((f'PST round trip of a slot {sl} node', (lambda sl=sl: round_trip(ctx, f'slot {sl}', (lambda k, p, sl=sl: Agg('variant', EK, 'Slot', [Agg('struct', 'ast::name::SlotId', None, [Agg('variant', 'ast::name::ValidSlotId', sl, [])])])), 'PST'))))
     for who in ('principal', 'resource'):
         fam += [(f'{who} constraint {label}', (lambda who=who, label=label, b=b: constraint_round_trip(ctx, who, label, b))) for label, b in constraint_shapes()]
     fam += [(f'action constraint {label}', (lambda label=label, b=b: constraint_round_trip(ctx, 'action', label, b, action=True))) for label, b in action_shapes()]
@@ -616,8 +631,8 @@ def families(ctx):
             bl = (lambda u, t, tgt=tgt: tgt([u[1], u[0]], t)) if label in linked else b
             fam.append((f'est {who} constraint link {label}', (lambda who=who, label=label, b=b, bl=bl: link_obligation(ctx, who, label, b, bl))))
     fam += [(f'template {eff} cond={hc}', (lambda hc=hc, eff=eff: policy_round_trip(ctx, hc, eff))) for hc in (True, False) for eff in ('Permit', 'Forbid')]
-    from . import c06_proto
-    fam += c06_proto.families(ctx)
+    from . import c06_proto, c06_leaves
+    fam += c06_proto.families(ctx) + c06_leaves.families(ctx)
     return fam
 
 
@@ -632,8 +647,9 @@ def run(ctx):
                    'condition, two annotations', f'native battery: {len(CONDS) + len(POLICIES)} policies through Policy::to_json / Policy::from_json; native protobuf battery: {len(c06_proto.PROTO_SETS)} policy sets (incl. templates and links) through Protobuf::encode / decode, compared by id, scope and AST equality']
     ctx.assumptions += ['children are opaque: ast -> est of child i is an arbitrary EST e_i and est -> ast of e_i gives child i back (induction hypothesis); AST invariant used: && / || never have two boolean literals as children '
                         '(ExprBuilder::and / or fold them, and every AST is built through the builder)',
-                        'leaves whose text form is out of reach are opaque and assumed to round-trip: printing and re-parsing of entity type names and extension function names (C05), ast::Pattern <-> EST pattern elements, '
-                        'literal values (CedarValueJson), unknowns; the function of an extension call is assumed to be a known extension function',
+                        'leaves whose text form is out of reach are opaque and assumed to round-trip: printing and re-parsing of entity type names and extension function names (C05), '
+                        'literal values (CedarValueJson), unknowns; two leaves are decided on their own (c06_leaves.py): like patterns AST <-> JSON pattern elements for every wildcard / character shape of <= 3 elements with symbolic characters, '
+                        'and entity uids AST <-> PST (type and raw id text); the function of an extension call is assumed to be a known extension function',
                         'the same expression-node round trip is decided for the programmatic syntax tree (AST -> PST through PstBuilder, PST -> AST through pst::Expr::into_expr and the ast builder), except extension calls (PST keys them by name strings)',
                         'protobuf (cedar-policy/src/proto/{policy,ast}.rs from the cedar-policy crate dump, message types = the prost-generated code of the dump build): the same two-run round trip per scope-constraint shape, effect and '
                         'expression node kind (+ literal, 4 variables, 2 slots), the whole template body and the template-link message; the ast::Expr constructors, TemplateBody::new, Template::link, Expr::expr_kind, SlotId tests / constructors and EntityReference::euid of cedar-policy-core are logged one-line stubs; entity uids, names, '
